@@ -237,6 +237,32 @@ type c21Runner struct {
 	kbs    map[int]c21KB
 	kbKey  map[int][]byte
 	dicts  map[int]*c21Dict
+	// kept ArrayDB / VarDB objects (one slot holds both views of the same builder)
+	handles map[int]*c21Handle
+	snap    *c21Snap
+}
+
+type c21Handle struct {
+	k c21KB
+	a *containerdb.ArrayDB
+	v *containerdb.VarDB
+}
+
+// c21Snap: the store and the oracle's reference at the time of `snap`
+type c21Snap struct {
+	store     map[string][]byte
+	refSlot   map[string][]byte
+	refArr    map[string][][]byte
+	slotOwner map[string]string
+	dirty     bool
+}
+
+func c21CopyBytesMap(m map[string][]byte) map[string][]byte {
+	n := make(map[string][]byte, len(m))
+	for k, v := range m {
+		n[k] = v
+	}
+	return n
 }
 
 type c21Dict struct {
@@ -268,7 +294,7 @@ var c21GlobalKeys = map[string]string{} // built key -> slot id, across cases (b
 func newC21Runner() *c21Runner {
 	return &c21Runner{st: &c21Store{m: map[string][]byte{}}, keyOwner: map[string]string{},
 		slotOwner: map[string]string{}, refSlot: map[string][]byte{}, refArr: map[string][][]byte{},
-		kbs: map[int]c21KB{}, kbKey: map[int][]byte{}, dicts: map[int]*c21Dict{}}
+		kbs: map[int]c21KB{}, kbKey: map[int][]byte{}, dicts: map[int]*c21Dict{}, handles: map[int]*c21Handle{}}
 }
 
 func c21Show(v []byte) string {
@@ -403,6 +429,90 @@ func (r *c21Runner) Step(t []string, o *Oracle) string {
 		return "ok " + strings.Join(ss, ";")
 	}
 	switch t[0] {
+	case "snap":
+		if len(t) != 1 {
+			return "bad-op"
+		}
+		sn := &c21Snap{store: c21CopyBytesMap(r.st.m), refSlot: c21CopyBytesMap(r.refSlot), refArr: map[string][][]byte{}, slotOwner: map[string]string{}, dirty: r.dirty}
+		for k, v := range r.refArr {
+			sn.refArr[k] = append([][]byte{}, v...)
+		}
+		for k, v := range r.slotOwner {
+			sn.slotOwner[k] = v
+		}
+		r.snap = sn
+		return "ok"
+	case "rollback":
+		// the store goes back to the snapshot (a reverted transaction); handles stay alive
+		if len(t) != 1 || r.snap == nil {
+			return "bad-op"
+		}
+		r.st.m = c21CopyBytesMap(r.snap.store)
+		r.refSlot = c21CopyBytesMap(r.snap.refSlot)
+		r.refArr = map[string][][]byte{}
+		for k, v := range r.snap.refArr {
+			r.refArr[k] = append([][]byte{}, v...)
+		}
+		// ownership only grows: slots touched since the snapshot keep their owner
+		r.dirty = r.dirty || r.snap.dirty
+		o.Count("store-rolled-back")
+		return "ok"
+	case "hnew":
+		if len(t) != 3 {
+			return "bad-op"
+		}
+		n, err := strconv.Atoi(t[1])
+		if err != nil || n < 0 {
+			return "bad-op"
+		}
+		k, ok := r.parseKB(t[2])
+		if !ok {
+			return "bad-op"
+		}
+		r.handles[n] = &c21Handle{k: k, a: containerdb.NewArrayDB(r.st, k.kb), v: containerdb.NewVarDB(r.st, k.kb)}
+		o.Count("kept-container-handle")
+		return "ok"
+	case "hasize", "haget", "haset", "haput", "hapop", "hvget", "hvset", "hvdel":
+		if len(t) < 2 {
+			return "bad-op"
+		}
+		n, err := strconv.Atoi(t[1])
+		if err != nil || n < 0 {
+			return "bad-op"
+		}
+		want := map[string]int{"hasize": 2, "haget": 3, "haset": 4, "haput": 3, "hapop": 2, "hvget": 2, "hvset": 3, "hvdel": 2}[t[0]]
+		if len(t) != want {
+			return "bad-op"
+		}
+		var part interface{}
+		var idx int
+		var ok bool
+		switch t[0] {
+		case "haput", "hvset":
+			if part, ok = c21Part(t[2]); !ok {
+				return "bad-op"
+			}
+		case "haget", "haset":
+			v, err := strconv.ParseInt(t[2], 10, 64)
+			if err != nil {
+				return "bad-op"
+			}
+			idx = int(v)
+			if t[0] == "haset" {
+				if part, ok = c21Part(t[3]); !ok {
+					return "bad-op"
+				}
+			}
+		}
+		h, ok := r.handles[n]
+		if !ok {
+			return "bad-op"
+		}
+		defer r.checkKept(o)
+		if t[0][1] == 'a' {
+			return r.arrayOp(t[0][1:], h.k, idx, part, o, h.a)
+		}
+		return r.varOp(t[0][1:], h.k, part, o, h.v)
 	case "kbnew":
 		if len(t) != 3 {
 			return "bad-op"
@@ -608,36 +718,9 @@ func (r *c21Runner) Step(t []string, o *Oracle) string {
 	case "build":
 		return hx(r.noteKey(k, o))
 	case "vget", "vset", "vdel":
-		r.noteKey(k, o)
-		r.own(k, "plain", o)
-		sid := r.slotID(k)
-		v := containerdb.NewVarDB(r.st, k.kb)
-		switch t[0] {
-		case "vget":
-			got := v.Bytes()
-			if !r.dirty {
-				o.Check(bytes.Equal(got, r.refSlot[sid]) && (got == nil) == (r.refSlot[sid] == nil), "var-get-unexpected", "var %s = %s, expected %s", sid, c21Show(got), c21Show(r.refSlot[sid]))
-			}
-			return c21Show(got)
-		case "vset":
-			if err := v.Set(part); err != nil {
-				return "err"
-			}
-			r.refSlot[sid] = append([]byte{}, containerdb.ToBytes(part)...)
-			return "ok"
-		default:
-			old, err := v.Delete()
-			if err != nil {
-				return "err"
-			}
-			if !r.dirty {
-				o.Check(bytes.Equal(old.Bytes(), r.refSlot[sid]), "var-delete-old-value", "var %s delete returned %s, expected %s", sid, c21ShowValue(old), c21Show(r.refSlot[sid]))
-			}
-			delete(r.refSlot, sid)
-			return c21ShowValue(old)
-		}
+		return r.varOp(t[0], k, part, o, nil)
 	case "asize", "aget", "aset", "aput", "apop":
-		return r.arrayOp(t[0], k, idx, part, o)
+		return r.arrayOp(t[0], k, idx, part, o, nil)
 	case "dget", "dset", "ddel", "dsub":
 		d := containerdb.NewDictDB(r.st, depth, k.kb)
 		switch t[0] {
@@ -699,11 +782,48 @@ func (r *c21Runner) Step(t []string, o *Oracle) string {
 	return "bad-op"
 }
 
-func (r *c21Runner) arrayOp(op string, k c21KB, idx int, part interface{}, o *Oracle) string {
+func (r *c21Runner) varOp(op string, k c21KB, part interface{}, o *Oracle, kept *containerdb.VarDB) string {
+	r.noteKey(k, o)
+	r.own(k, "plain", o)
+	sid := r.slotID(k)
+	v := kept
+	if v == nil {
+		v = containerdb.NewVarDB(r.st, k.kb)
+	}
+	switch op {
+	case "vget":
+		got := v.Bytes()
+		if !r.dirty {
+			o.Check(bytes.Equal(got, r.refSlot[sid]) && (got == nil) == (r.refSlot[sid] == nil), "var-get-unexpected", "var %s = %s, expected %s", sid, c21Show(got), c21Show(r.refSlot[sid]))
+		}
+		return c21Show(got)
+	case "vset":
+		if err := v.Set(part); err != nil {
+			return "err"
+		}
+		r.refSlot[sid] = append([]byte{}, containerdb.ToBytes(part)...)
+		return "ok"
+	default:
+		old, err := v.Delete()
+		if err != nil {
+			return "err"
+		}
+		if !r.dirty {
+			o.Check(bytes.Equal(old.Bytes(), r.refSlot[sid]), "var-delete-old-value", "var %s delete returned %s, expected %s", sid, c21ShowValue(old), c21Show(r.refSlot[sid]))
+		}
+		delete(r.refSlot, sid)
+		return c21ShowValue(old)
+	}
+}
+
+func (r *c21Runner) arrayOp(op string, k c21KB, idx int, part interface{}, o *Oracle, kept *containerdb.ArrayDB) string {
 	aid := "arr:" + r.slotID(k)
 	r.noteKey(k, o)
 	r.own(k, aid, o)
-	a := containerdb.NewArrayDB(r.st, k.kb)
+	a := kept
+	if a == nil {
+		a = containerdb.NewArrayDB(r.st, k.kb)
+	}
 	ref := r.refArr[aid]
 	elem := func(i int) c21KB {
 		e := k.Append(i)
@@ -1005,6 +1125,11 @@ func c21Gen(g *Gen) {
 	g.Emit("kbnew x H/_")
 	g.Emit("sdget 3 _")
 	g.Emit("dgetdb 1 2 _")
+	g.Emit("rollback")
+	g.Emit("hasize 9")
+	g.Emit("hnew 1 P/_")
+	g.Emit("haget 1 x")
+	g.Emit("snap 1")
 }
 
 func c21GenOne(g *Gen, x int) {
@@ -1037,6 +1162,70 @@ func c21GenOne(g *Gen, x int) {
 			c21GenCase(g)
 		}
 	}
+}
+
+// c21GenHandles: long-lived container objects: two ArrayDB handles on one key path used
+// alternately (and against fresh handles), and handles that outlive a rollback of the store.
+func c21GenHandles(g *Gen) {
+	cls := []string{"H/y:00/s:68616e64", "R/y:00/s:68616e64", "P/s:70;y:00/s:68616e64", "N:0102/y:00/s:68616e64", "W/s:68616e64"}[g.Intn(5)]
+	val := func() string { return "s:" + hx(g.Bytes(1+g.Intn(3))) }
+	g.Emit("hnew 20 %s", cls)
+	for i := g.Intn(3); i > 0; i-- {
+		g.Emit("haput 20 %s", val())
+	}
+	g.Emit("hnew 21 %s", cls)
+	snapped := false
+	for i := 6 + g.Intn(24); i > 0; i-- {
+		h := 20 + g.Intn(2)
+		switch g.Intn(14) {
+		case 0, 1, 2:
+			g.Emit("haput %d %s", h, val())
+		case 3:
+			g.Emit("hapop %d", h)
+		case 4, 5:
+			g.Emit("hasize %d", h)
+		case 6:
+			g.Emit("haget %d %d", h, g.Intn(5))
+		case 7:
+			g.Emit("haset %d %d %s", h, g.Intn(4), val())
+		case 8:
+			// the same array through a fresh handle
+			switch g.Intn(3) {
+			case 0:
+				g.Emit("aput %s %s", cls, val())
+			case 1:
+				g.Emit("apop %s", cls)
+			default:
+				g.Emit("asize %s", cls)
+			}
+		case 9:
+			g.Emit("snap")
+			snapped = true
+		case 10, 11:
+			if snapped {
+				g.Emit("rollback")
+				g.Emit("hasize %d", h)
+				g.Emit("haput %d %s", h, val())
+				g.Emit("hasize %d", 41-h)
+			}
+		case 12:
+			g.Emit("hnew %d %s", h, cls) // re-open
+		default:
+			vk := strings.Replace(cls, "y:00", "y:02", 1)
+			g.Emit("hnew 22 %s", vk)
+			g.Emit("hvset 22 %s", val())
+			g.Emit("snap")
+			snapped = true
+			g.Emit("hvset 22 %s", val())
+			g.Emit("hvget 22")
+			g.Emit("rollback")
+			g.Emit("hvget 22")
+			g.Emit("hvdel 22")
+		}
+	}
+	g.Emit("hasize 20")
+	g.Emit("hasize 21")
+	g.Emit("asize %s", cls)
 }
 
 // c21GenFamily: one parent builder kept alive, several children derived from it and kept
@@ -1172,6 +1361,9 @@ func c21GenCase(g *Gen) {
 	}
 	if g.Intn(2) == 0 {
 		c21GenFamily(g)
+	}
+	if g.Intn(2) == 0 {
+		c21GenHandles(g)
 	}
 	for i := 0; i < steps; i++ {
 		c := cs[g.Intn(len(cs))]
